@@ -6,6 +6,26 @@ INC = 4096          # only used to aim sizes at the chunk boundary; the model ta
 SIZES_BIG = [4095, 4096, 4097, 3 * 4096 + 5]
 SPACE = [9, 10, 11, 12, 13, 32]
 SMALL = [0, 32, 9, 10, 0x61, 0x62, 0xff, 0x80]
+KMAX = 14
+
+
+def pow2_lengths(kmax=KMAX):
+    """0 and every 2^k - 1, 2^k, 2^k + 1 for k <= kmax: the sizes at which fixed local buffers, chunked
+    growth and doubling strategies change path"""
+    s = set()
+    for k in range(kmax + 1):
+        s.update([2 ** k - 1, 2 ** k, 2 ** k + 1])
+    return sorted(s)
+
+
+def pat_bytes(n, salt=0):
+    """n bytes walking through all 256 values (position-dependent, so a shifted or dropped byte shows)"""
+    return [(i * 131 + salt * 29 + n) & 255 for i in range(n)]
+
+
+def pat_text(n, salt=0):
+    """n NUL-free bytes (a C string for the %s argument of sprintf), all 255 other values"""
+    return [1 + ((i * 131 + salt * 29 + n) % 255) for i in range(n)]
 
 
 def hx(bs):
@@ -53,7 +73,11 @@ class Gen:
         return [self.byte() for _ in range(n)]
 
     def small_len(self):
-        return self.rng.choice([0, 0, 1, 1, 2, 3, 4, 5, 7, 8, 16])
+        r = self.rng
+        if r.random() < 0.02:
+            # a power of two or a neighbour, up to 1025 (the long ones have their own stratum)
+            return r.choice([x for x in pow2_lengths(10) if x >= 15])
+        return r.choice([0, 0, 1, 1, 2, 3, 4, 5, 7, 8, 16])
 
     def other(self, bs=None):
         """token for an `other` object and its bytes"""
@@ -148,7 +172,12 @@ class Gen:
                 return 'spf:E', []
             if x < 0.3:
                 return 'spf:S-', []
-            a = [b for b in self.bytes_(r.choice([1, 2, 5, 9])) if b != 0]
+            if r.random() < 0.15:
+                # exact output length on a power-of-two boundary (NUL-free by construction)
+                n = r.choice([x for x in pow2_lengths(11) if x >= 1])
+                a = pat_text(n, r.randrange(7))
+            else:
+                a = [b for b in self.bytes_(r.choice([1, 2, 5, 9])) if b != 0]
             if x < 0.5:
                 b2 = [b for b in self.bytes_(r.choice([0, 1, 3])) if b != 0]
                 return 'spf:Z%s,%s' % (hx(a), hx(b2)), a + [0] + b2
@@ -283,7 +312,9 @@ class C07(vlib.PropertyCheck):
     nontrivial_rule = ('one case = one history (constructor + 0..40 operations, or one method on a NULL self); non-trivial when the '
                        'model does not fault and at least one operation after the constructor produced a result (success, new object, '
                        'index or comparison value); distinct = distinct case lines.  Index/count arguments are drawn from -len-2..len+2 '
-                       '(exhaustively for len <= 3 resp. 5), sizes from {0,1,small,4095,4096,4097,12293}, bytes from all 256 values')
+                       '(exhaustively for len <= 3 resp. 5), sizes from {0,1,small,4095,4096,4097,12293}, bytes from all 256 values; every '
+                       'length-driven operation (sprintf output, append/prepend/splice text, constructor length and size, stream total '
+                       'and chunk length, subbuff count, compare/find/clear/trim length) additionally at 2^k-1, 2^k, 2^k+1 for every k <= 14')
     assumptions = ['(pointer, length) arguments describe a readable caller block of at least that many bytes, length >= 0',
                    'cmp_with_ptr / ncmp_with_ptr: the answer is specified for counts up to the buffer length (any count when size = len); between len and size the code compares spare cells (the unedited suite relies on that), above size it stops at the allocation',
                    'set_len only truncates, set_size is not used to misstate the allocation',
@@ -309,7 +340,8 @@ class C07(vlib.PropertyCheck):
               'compares spare cells there; the unedited suite relies on it), set_len used to extend, aliasing self == other, spif_mbuff_show, allocation '
               'failure, sizes >= 2^31.  Decided by the correspondence check only: that src/mbuff.c is the modelled function (level A: return '
               'values, len, bytes, size >= len, allocation >= size via __sanitizer_get_allocated_size, sanitizer silence; level B: exact size), '
-              'vsnprintf, the kernel and stdio behaviour behind the read schedules (real pipes and regular files under build/work/c07), and the '
+              'vsnprintf (outputs of every length 2^k-1, 2^k, 2^k+1 up to 16385, first and later use), the kernel and stdio behaviour behind the '
+              'read schedules (real pipes and regular files under build/work/c07), and the '
               'NULL-self answers.  libc (memcpy/memmove/memset/memcmp/memmem with length 0 touch nothing), malloc/realloc/free are modelled, not verified.'),
         design_ref='DESIGN.md section 7, C07')
 
@@ -357,6 +389,15 @@ class C07(vlib.PropertyCheck):
         for l in range(0, 4 if quick else 6):
             for t in itertools.product([32, 10, 0x61, 0], repeat=l):
                 cases.append('buff %s:%d:%d trim glen trim' % (hx(t), l, l + (l % 2)))
+        # the high-bit twins of the blanks (0xa0, 0x89..0x8d) are ordinary bytes for trim
+        for l in range(1, 4 if quick else 5):
+            for t in itertools.product([32, 10, 0x61, 0xa0, 0x8a, 0x89], repeat=l):
+                if any(c >= 0x80 for c in t):
+                    cases.append('buff %s:%d:%d trim glen trim' % (hx(t), l, l + (l % 2)))
+        for c in SPACE:
+            tw = c | 0x80
+            cases.append('ptr %s:5 trim glen idx:%d ridx:%d findp:%02x:1' % (hx([c, tw, 0x61, tw, c]), c, tw, tw))
+            cases.append('ptr %s:3 trim glen' % hx([tw, c, tw]))
         for name, args in (('new', '-'), ('buff', 'N:0:0'), ('buff', 'N:0:5'), ('buff', '-:0:0'), ('buff', '-:0:3'), ('ptr', '-:0'),
                            ('ptr', 'N:3'), ('fd', 'P:n:-'), ('fd', 'R0:n:-'), ('fp', 'P:n:-'), ('fp', 'R0:n:-')):
             for o in ['trim', 'rev', 'idx:0', 'ridx:0', 'clr:1', 'dup', 'dupto', 'done', 'find:E', 'find:-+0', 'findp:-:0',
@@ -403,6 +444,14 @@ class C07(vlib.PropertyCheck):
             cases.append('new - app:%s:%d %s' % (hx(bs), n, tail))
             cases.append('new - ppp:%s:%d pp:%s+1 %s' % (hx(bs), n, hx(bs), tail))
 
+
+        # 6b. every length-driven operation at every power of two and its neighbours (2^k - 1, 2^k, 2^k + 1, k <= 14):
+        #     sprintf output, append/prepend/splice texts, constructor lengths and sizes, stream totals and chunk
+        #     lengths, subbuff counts, comparison/search/clear/trim lengths.  Both tiers run every operation at every
+        #     length (measured cost: ~10 s); only reverse stops at 1025 (quick) / 4097 (thorough), the model's
+        #     reverse being quadratic.
+        cases += self.boundary_cases(rng, quick)
+
         # 7. random histories from every constructor
         nh = 5000 if quick else 250000
         for _ in range(nh):
@@ -416,6 +465,106 @@ class C07(vlib.PropertyCheck):
                 if len(s) > 3 * INC + 600:
                     break
             cases.append('%s %s %s' % (name, args, ' '.join(toks)))
+        return cases
+
+
+    # ---------------------------------------------------------------------------------
+    def boundary_cases(self, rng, quick):
+        cases = []
+        lens = pow2_lengths()
+        classes = ['prepend', 'splice', 'ctor', 'stream', 'sub', 'cmpfind', 'edit']
+        pick = dict((c, rng.choice([12, 13, 14])) for c in classes)
+
+        def on(cls, L):
+            # measured: the whole stratum costs the model ~5 s and the ASan build ~4 s, so both tiers run all of it;
+            # the rotation (one seed-chosen k in 12..14 per class) only applies when LV_C07_ROTATE is set
+            if not quick or L <= 2049 or not vlib.os.environ.get('LV_C07_ROTATE'):
+                return True
+            k = pick[cls]
+            return 2 ** k - 1 <= L <= 2 ** k + 1
+
+        for L in lens:
+            tb, tb2 = pat_bytes(L), pat_bytes(L, 3)
+            t, t2 = pat_text(L), pat_text(L, 5)
+            H, H2 = hx(tb), hx(tb2)
+            scan = ' idx:0 ridx:0 findp:00:1' if L <= 4097 else ''
+            # ---- sprintf: first use, later use (same / other length), embedded NUL, output longer by one argument
+            if L >= 1:
+                cases.append('new - spf:S%s glen%s' % (hx(t), scan))
+                cases.append('ptr 616263:3 spf:S%s glen spf:S%s glen spf:S41 spf:S%s' % (hx(t), hx(t2), hx(t)))
+                cases.append('buff %s:%d:%d spf:S%s glen app:7a:1' % (H, L, L + 1, hx(t2)))
+                cases.append('new - spf:Z%s,%s glen' % (hx(t[:L // 2]), hx(t[L // 2 + 1:])))
+                cases.append('new - spf:Z%s,- glen spf:Z-,%s glen' % (hx(t[:L - 1]), hx(t[:L - 1])))
+            # ---- append (object and pointer form): onto nothing, onto a short text, onto a text of that length
+            #      without spare cells, a text of that length onto itself-sized content, then one byte more
+            cases.append('new - ap:%s+0 glen app:7a:1 glen' % H)
+            cases.append('new - app:%s:%d glen ap:7a+0 glen' % (H, L))
+            cases.append('ptr 6162:2 ap:%s+1 app:7a:1 glen' % H)
+            cases.append('ptr 6162:2 app:%s:%d ap:7a7b+3 glen' % (H, L))
+            cases.append('buff %s:%d:%d app:7a:1 ap:7b7c+0 glen' % (H, L, L))
+            if L <= 8193:
+                cases.append('ptr %s:%d app:%s:%d ap:%s+0 glen' % (H, L, H2, L, H))
+            # the total (not the added text) lands on the boundary
+            if L >= 3:
+                cases.append('ptr %s:3 app:%s:%d glen' % (hx(tb[:3]), hx(tb[3:]), L - 3))
+                cases.append('ptr %s:%d ap:%s+0 glen' % (hx(tb[:L - 2]), L - 2, hx(tb[L - 2:])))
+            # ---- prepend
+            if on('prepend', L):
+                cases.append('new - pp:%s+0 glen ppp:7a:1 glen' % H)
+                cases.append('new - ppp:%s:%d glen pp:7a+0 glen' % (H, L))
+                cases.append('ptr 6162:2 ppp:%s:%d pp:%s+0 glen' % (H, L, hx(tb2[:3])))
+                cases.append('buff %s:%d:%d ppp:7a:1 pp:%s+2 glen' % (H, L, L, H2))
+            # ---- splice: insert L bytes, remove L bytes, replace L by L, result of length L
+            if on('splice', L):
+                cases.append('ptr 616263:3 spl:1:1:%s+0 glen spl:1:%d:N glen' % (H, L))
+                cases.append('ptr 616263:3 splp:-1:0:%s:%d glen splp:2:%d:5a:1 glen' % (H, L, L))
+                cases.append('ptr 58%s59:%d spl:1:%d:%s+1 glen spl:1:%d:N glen' % (H if L else '', L + 2, L, H2, L))
+                cases.append('ptr 58%s59:%d splp:1:-1:%s:%d glen' % (H if L else '', L + 2, H2, L))
+                if L >= 2:
+                    cases.append('ptr %s:%d splp:1:1:%s:1 glen spl:0:0:E glen' % (H, L, hx(tb2[:1])))
+            # ---- constructors: length and size arguments
+            if on('ctor', L):
+                cases.append('ptr %s:%d glen dup app:7a:1' % (H, L))
+                for sz in sorted(set([0, max(0, L - 1), L, L + 1])):
+                    cases.append('buff %s:%d:%d gsize app:7a:1 glen' % (H, L, sz))
+                cases.append('buff %s:%d:%d glen app:7a:1' % (hx(tb + [1, 2]), L, L))
+                cases.append('buff N:%d:%d gsize app:7a:1 glen' % (L, L))
+                cases.append('buff -:0:%d gsize ap:%s+0 glen' % (L, hx(tb[:5])))
+            # ---- streams: totals and chunk lengths, both APIs, pipes and files, natural and scheduled delivery
+            if on('stream', L):
+                for api in ('fd', 'fp'):
+                    for kind in ('P', 'R0', 'R3'):
+                        cases.append('%s %s:n:%s glen app:7a:1' % (api, kind, ('D' + H) if L else '-'))
+                    if L >= 1:
+                        cases.append('%s P:w:D%s,E glen' % (api, H))
+                        cases.append('%s P:w:S%s,D%s,D%s,E glen' % (api, H, H2, hx(tb[:1])))
+                        cases.append('%s P:w:D%s,S%s,S%s,X glen' % (api, hx(tb2[:3]), H, H2))
+                        cases.append('%s R0:w:D%s,E glen' % (api, H))
+                    if 2 <= L <= 8193:
+                        # the total on the boundary, delivered in uneven pieces
+                        cut = rng.randrange(1, L)
+                        cases.append('%s P:w:S%s,%sD%s glen' % (api, hx(tb[:cut]), 'I,' if api == 'fd' else '', hx(tb[cut:])))
+            # ---- subbuff counts
+            if on('sub', L) and L >= 1:
+                cases.append('ptr 58%s59:%d sub:1:%d subp:1:%d sub:0:%d subp:2:%d sub:-%d:0' % (H, L + 2, L, L, L, L, L))
+                cases.append('ptr %s:%d sub:0:0 subp:0:%d sub:0:%d' % (H, L, L, L + 1))
+            # ---- comparisons and searches over L bytes
+            if on('cmpfind', L):
+                d = list(tb)
+                if d:
+                    d[-1] ^= 0x80
+                cases.append('ptr %s:%d cmp:%s+0 cmp:%s+1 ncmp:%s+0:%d ncmp:%s+0:%d cmpp:%s:%d ncmpp:%s:%d'
+                             % (H, L, H, hx(d), hx(d), L, hx(d), max(L - 1, 0), H, L, hx(d), L))
+                cases.append('ptr 58%s59:%d find:%s+0 findp:%s:%d find:%s+0 findp:%s:%d'
+                             % (H if L else '', L + 2, H, H, L, hx(d), hx(tb[-3:] + [0x59]), len(tb[-3:]) + 1))
+            # ---- in-place edits at that length
+            if on('edit', L):
+                core = [0x41] + tb[1:-1] + [0x42] if L >= 2 else [0x41] * L
+                cases.append('ptr 200a%s0920:%d trim glen trim' % (hx(core) if L else '', L + 4))
+                cases.append('ptr %s:%d clr:0 glen clr:255' % (H, L))
+                cases.append('ptr %s7a:%d slen:%d glen app:7b:1' % (H if L else '', L + 1, L))
+                if L <= (1025 if quick else 4097):
+                    cases.append('ptr %s:%d rev glen idx:%d ridx:%d' % (H, L, tb[0] if tb else 0, tb[-1] if tb else 0))
         return cases
 
     # ---------------------------------------------------------------------------------
@@ -475,7 +624,8 @@ class C07(vlib.PropertyCheck):
         ctx['cov']['exhaustive_strata'] = ('index/count pairs in -len-2..len+2 for splice, splice_from_ptr, subbuff, subbuff_to_ptr on sequences of '
                                     'length 0..3 (quick) / 0..5 (thorough); cmp/ncmp/cmp_with_ptr on all pairs of sequences over {0,1,255} up to '
                                     'length 2 (quick) / 3 (thorough); read schedules up to 2 (quick) / 3 (thorough) events over '
-                                    '{D3, S1, D4096, D4097, S4095, EINTR, EOF, Err, D0}; all 256 byte values for index/rindex/find/clear')
+                                    '{D3, S1, D4096, D4097, S4095, EINTR, EOF, Err, D0}; all 256 byte values for index/rindex/find/clear; '
+                                    'lengths 0 and 2^k-1, 2^k, 2^k+1 (k <= 14) for every length-driven operation, both tiers')
         out = []
         if ctx['tier'] == 'thorough':
             # independent re-check of the compiled property file by the stand-alone checker
